@@ -26,6 +26,7 @@ type c09Case struct {
 	Nodes     int   `json:"nodes"`        // keys spread over this many nodes
 	SplitEach int   `json:"split_every"`  // every n-th request is a split MGET over two nodes (0 = never)
 	Second    bool  `json:"second_client"`
+	Burst     int   `json:"burst_behind_slow_head,omitempty"` // >0: a head request answered after 300 ms, this many fast requests right behind it, then silence
 }
 
 const c09Delta = time.Second
@@ -52,6 +53,11 @@ func c09Gen(t *rapid.T) c09Case {
 	}
 	c.SplitEach = rapid.SampledFrom([]int{0, 0, 3, 10}).Draw(t, "split")
 	c.Second = rapid.Bool().Draw(t, "second")
+	if rapid.IntRange(0, 5).Draw(t, "burstmode") == 0 {
+		c.Burst = rapid.SampledFrom([]int{200, 1023, 1024, 1025, 1500, 3000}).Draw(t, "burst")
+		c.Nodes = rapid.IntRange(2, 3).Draw(t, "burstnodes")
+		c.SplitEach = 0
+	}
 	return c
 }
 
@@ -119,6 +125,12 @@ func c09Run(f *Fixture, c *c09Case) ([]Discrepancy, bool) {
 		l := c.LatMs[latIdx%len(c.LatMs)]
 		latIdx++
 		latMu.Unlock()
+		if c.Burst > 0 {
+			l = 0
+			if k := req.Key(1); len(k) > 4 && k[len(k)-4:] == "r0k0" {
+				l = 300 // the head request of each client
+			}
+		}
 		a := fakecluster.Action{Reply: fakecluster.EchoReply(req)}
 		if l > 0 {
 			// reply at arrival + l (replies of one connection stay in order)
@@ -150,7 +162,14 @@ func c09Run(f *Fixture, c *c09Case) ([]Discrepancy, bool) {
 			defer wg.Done()
 			end := time.Now().Add(time.Duration(c.DurMs) * time.Millisecond)
 			for i := 0; time.Now().Before(end) && i < 20000; i++ {
-				key := refmodel.KeyInSlot(slots[i%len(slots)], fmt.Sprintf("c%dr%dk0", ci, i))
+				if c.Burst > 0 && i > c.Burst {
+					break // silence after the burst
+				}
+				slot := slots[i%len(slots)]
+				if c.Burst > 0 && i > 0 {
+					slot = slots[1+i%(len(slots)-1)] // the burst goes to the other nodes, which answer at once
+				}
+				key := refmodel.KeyInSlot(slot, fmt.Sprintf("c%dr%dk0", ci, i))
 				var b []byte
 				if c.SplitEach > 0 && i%c.SplitEach == c.SplitEach-1 {
 					k2 := refmodel.KeyInSlot(slots[(i+1)%len(slots)], fmt.Sprintf("c%dr%dk1", ci, i))
@@ -164,7 +183,7 @@ func c09Run(f *Fixture, c *c09Case) ([]Discrepancy, bool) {
 					break
 				}
 				s.nreq++
-				if c.GapUs > 0 {
+				if c.GapUs > 0 && c.Burst == 0 {
 					time.Sleep(time.Duration(c.GapUs) * time.Microsecond)
 				}
 			}
@@ -210,7 +229,7 @@ func c09Run(f *Fixture, c *c09Case) ([]Discrepancy, bool) {
 	for ci, s := range streams {
 		st := s.cl.Snapshot()
 		var prefixDone time.Time
-		judged := 0
+		judged, afterWindow := 0, 0
 		for i := 0; i < s.nreq; i++ {
 			tok := c03Tok.FindString(s.keys[i])
 			d, ok := doneAt[tok]
@@ -222,7 +241,7 @@ func c09Run(f *Fixture, c *c09Case) ([]Discrepancy, bool) {
 			}
 			due := prefixDone.Add(c09Delta)
 			if !due.Before(s.sendDone) {
-				break // only requests whose deadline falls inside the sending window are judged
+				afterWindow++ // deadline after the client stopped sending: judged all the same (nothing may be withheld then either)
 			}
 			judged++
 			if i >= len(st.Replies) || st.Replies[i].Time.After(due) {
@@ -238,6 +257,7 @@ func c09Run(f *Fixture, c *c09Case) ([]Discrepancy, bool) {
 			}
 		}
 		evidence.For("C09").Add("requests_judged", judged)
+		evidence.For("C09").Add("requests_judged_after_sending_stopped", afterWindow)
 		// non-trivial: the client always had a request outstanding while it was sending
 		for k := 0; k+1 < s.nreq && k < len(st.Replies); k++ {
 			if st.Replies[k].Time.Before(s.sentAt[k+1]) && k >= 3 {
@@ -247,6 +267,9 @@ func c09Run(f *Fixture, c *c09Case) ([]Discrepancy, bool) {
 		}
 		if judged < 10 {
 			allNT = false
+		}
+		if c.Burst > 0 && judged >= c.Burst {
+			allNT = true
 		}
 	}
 	return ds, allNT
@@ -269,6 +292,9 @@ func TestC09(t *testing.T) {
 		c := c09Gen(t)
 		ds, nt := c09Exec(&c)
 		cls := []string{fmt.Sprintf("gap-%dus", c.GapUs), fmt.Sprintf("nodes-%d", c.Nodes)}
+		if c.Burst > 0 {
+			cls = append(cls, "burst-behind-slow-head")
+		}
 		if nt {
 			cls = append(cls, "always-outstanding")
 		}
